@@ -283,6 +283,120 @@ def monitor_pair(op, out):
             "%s: completed %s pairing (%s, central TK %s, user %s) reported %s" % (where, sel[0], alg, TK[tk], USER[user], STATUS[status]))
 
 
+# --- several pairings on one connection object ------------------------------------------------
+# kinds of pairing attempts: (cbhas, io, oobflag, authreq, tk, user)
+LEGACY_KINDS = {"jw": (0, 3, 0, 0, 0, 0), "pk": (0, 4, 0, 0, 1, 0), "pk2": (0, 2, 0, 0, 1, 0), "oob": (1, 3, 1, 0, 2, 0)}
+LESC_KINDS = {"jw": (0, 3, 0, 8, 0, 0), "nc": (0, 1, 0, 8, 0, 4), "nc1": (0, 1, 0, 8, 0, 1), "nc3": (0, 4, 0, 8, 0, 3)}
+LEGACY_FAIL = (0, 3, 0, 0, 3, 0)      # Just Works selected, the central uses a wrong TK: confirm value failed
+LESC_FAIL = (0, 1, 0, 8, 0, 2)        # display + yes/no: numeric comparison, the user says no
+LESC_REJECT = (0, 3, 0, 0, 0, 0)      # LESC-only manager: a request without the SC bit is rejected (in idle)
+SESSION_CFGS = {0: [0, 3, 5], 1: [0, 4], 2: [0, 3, 4]}     # manager -> IO configurations
+SEPARATORS = ["R", "RF", "P", "X", "RX"]
+
+
+def step_op(k):
+    return "step %d %d %d %d %d %d" % k
+
+
+def session_kinds(mgr, cfg, quick):
+    ks = []
+    if mgr != 1:
+        names = ["jw", "pk", "oob"] + ([] if quick else ["pk2"])
+        ks += [LEGACY_KINDS[n] for n in names]
+    if mgr != 0:
+        names = ["jw", "nc"] + (["nc1"] if cfg == 4 else []) + ([] if quick or cfg != 4 else ["nc3"])
+        ks += [LESC_KINDS[n] for n in names]
+    return ks
+
+
+def separator_ops(sep, mgr, cfg, nxt):
+    """what happens between two pairings: R = the next Pairing Request is rejected (pairing is not idle) and resets
+    pairing; RF = the same followed by a failed pairing attempt; P = the peer's Pairing Failed; X = new connection;
+    RX = rejected request, then a new connection"""
+    fail = LEGACY_FAIL if mgr != 1 else LESC_FAIL if cfg == 4 else LESC_REJECT
+    if mgr == 2 and cfg == 4 and nxt[3] & 8 == 0:
+        fail = LESC_FAIL
+    return {"R": [step_op(nxt)], "RF": [step_op(nxt), step_op(fail)], "P": ["peerfail"], "X": ["reset"],
+            "RX": [step_op(nxt), "reset"]}[sep]
+
+
+def c35_sessions(ctx):
+    """2 and 3 pairings on one connection: every ordered pair of kinds (authenticated <-> Just Works, legacy and LESC,
+    all three managers) x every separator; triples: all (thorough) / a random sample (quick)"""
+    import itertools
+    quick = not ctx.thorough
+    sessions = []
+    for mgr, cfgs in sorted(SESSION_CFGS.items()):
+        for cfg in cfgs:
+            ks = session_kinds(mgr, cfg, quick)
+            head = "open %d %d 0 1" % (mgr, cfg)
+            for a, b in itertools.product(ks, repeat=2):
+                for sep in SEPARATORS:
+                    sessions.append([head, step_op(a)] + separator_ops(sep, mgr, cfg, b) + [step_op(b)])
+            triples = [(a, b, c, s1, s2) for a, b, c in itertools.product(ks, repeat=3) for s1 in SEPARATORS for s2 in SEPARATORS]
+            if quick:
+                triples = ctx.rng.sample(triples, min(len(triples), 40))
+            for a, b, c, s1, s2 in triples:
+                sessions.append([head, step_op(a)] + separator_ops(s1, mgr, cfg, b) + [step_op(b)] + separator_ops(s2, mgr, cfg, c) + [step_op(c)])
+    return sessions
+
+
+def status_class(status):
+    return "authenticated" if status in (2, 3) else "unauthenticated" if status == 1 else "no_key"
+
+
+def monitor_session(ops, outs):
+    """C35 over a history on one connection: the status reported after every operation is compared with what the LAST
+    completed exchange authenticated (judged as in monitor_pair from what the central needed / the user did); after
+    anything else (rejected request, failed attempt, peer Pairing Failed, new connection) it has to be no_key"""
+    hits, head, earlier = [], None, []
+    for k, (op, out) in enumerate(zip(ops, outs)):
+        w = op.split()
+        if w[0] == "open":
+            head, earlier = w[1:5], []
+            continue
+        if head is None or w[0] not in ("step", "peerfail", "reset"):
+            continue
+        if w[0] in ("peerfail", "reset"):
+            try:
+                status = int(dict(x.split("=", 1) for x in out.split())["status"])
+            except Exception:
+                hits.append(("C35:bad-output", "unparsable: " + out, k))
+                continue
+            if status != 0:
+                hits.append(("C35:key-reported-without-completed-pairing:%s" % MGR[int(head[0])],
+                             "%s after %s reported although no pairing completed since (earlier on this connection: %s)"
+                             % (STATUS[status], w[0], ", ".join(earlier) or "nothing"), k))
+            if w[0] == "reset":
+                earlier = []
+            continue
+        pair_op = "pair %s %s" % (" ".join(head), " ".join(w[1:]))
+        hit = monitor_pair(pair_op, out)
+        try:
+            sel, kv = parse_pair(out)
+            done, status = kv["done"] == "1", int(kv["status"])
+        except Exception:
+            hits.append((hit[0], hit[1], k) if hit else ("C35:bad-output", "unparsable: " + out, k))
+            continue
+        known_class = hit is not None and hit[0].startswith("C35:combined-sc-") and "just_works" not in hit[0]
+        if hit and not known_class and earlier and (status_class(status) in earlier or not done):
+            hits.append(("C35:status-of-earlier-pairing-reported",
+                         "%s/%s: %s reported after %s [%s]; it is the status of an earlier pairing on this connection (%s) -- %s"
+                         % (MGR[int(head[0])], CFG[int(head[1])], STATUS[status], "a completed pairing" if done else "an attempt that did not complete",
+                            out.split(" done=")[0], ", ".join(earlier), hit[1]), k))
+        elif hit:
+            hits.append((hit[0], hit[1], k))
+        if done and kv.get("chk") == "1":
+            # what this exchange authenticated, independent of what is reported
+            mgr, cbhas, tk, user = int(head[0]), int(w[1]), int(w[5]), int(w[6])
+            if sel[0] == "legacy":
+                a = (tk == 1 and (kv["shown"] == "1" or kv["kbd"] == "1")) or (tk == 2 and cbhas == 1 and kv["oobq"] != "0")
+            else:
+                a = kv["asked"] == "1" and kv["shown"] == "1" and user in (1, 3, 4)
+            earlier.append("authenticated" if a else "unauthenticated")
+    return hits
+
+
 def proj_c35(op, line):
     """C35 is about completion and status: the three Pairing Response bytes (C36's subject) are
     not compared, so a mutation of the advertised capabilities does not fail this property"""
@@ -326,7 +440,12 @@ def run_c35(ctx, replay_path=None):
                 "once / before / after the DHKey check); the status is sampled after every step. quick: all of these for AuthReq in {0,4,8,12} on the "
                 "types without MITM option plus a random third of the rest; thorough: everything incl. 9 more AuthReq bytes. The monitor decides "
                 "'authenticated' from what the central needed (a TK the user / OOB channel carried, or a shown + confirmed comparison value), "
-                "never from the selected algorithm. non-trivial = completed pairings; distinct = distinct completed scenarios")
+                "never from the selected algorithm. Plus sessions of 2-3 pairings on ONE connection object (open / step / peerfail / reset): every "
+                "ordered pair of pairing kinds (legacy Just Works / pass key / OOB, LESC Just Works / numeric comparison) for the three managers "
+                "x 5 separators (the next request rejected because pairing is not idle, that plus a failed attempt, the peer's Pairing Failed, "
+                "a new connection, rejected request + new connection), triples sampled (quick) / all (thorough); the status reported after "
+                "every operation is compared with what the LAST completed exchange authenticated. "
+                "non-trivial = completed pairings; distinct = distinct completed scenarios")
     corpus = [ops for _, ops in ctx.corpus()]
     full, sample = c35_ops(ctx)
     if not ctx.thorough:
@@ -334,7 +453,8 @@ def run_c35(ctx, replay_path=None):
         sample = [op for op in sample if ctx.rng.random() < 0.04]
     ops = full + sample
     ctx.rng.shuffle(ops)
-    sessions = corpus + chunks(ops, 128)
+    multi = c35_sessions(ctx)
+    sessions = corpus + chunks(ops, 128) + multi
     impl, model, dis = ctx.run_pair(sessions, proj_c35)
     for d in dis[:20]:
         res.disagreements.append(dict(d, ops=[d["op"]]))
@@ -344,6 +464,16 @@ def run_c35(ctx, replay_path=None):
         res.evaluations += len(r["out"])
         if r["crash"]:
             res.failures.append({"key": "C35:crash:" + r["crash"].split(" @")[0], "what": r["crash"], "ops": s_ops[:len(r["out"]) + 1]})
+        for key, what, k in monitor_session(s_ops, r["out"]):
+            seen.setdefault(key, 0)
+            seen[key] += 1
+            if seen[key] <= 2:
+                res.failures.append({"key": key, "what": what, "ops": s_ops[:k + 1], "observed": r["out"][k]})
+        if any(o.startswith("open") for o in s_ops):
+            n_done = sum(1 for o in r["out"] if " done=1 " in o)
+            res.count("pairings_on_one_connection_completed_%d" % min(n_done, 3))
+            if n_done >= 2:
+                res.distinct.add(tuple(s_ops))
         for op, out in zip(s_ops, r["out"]):
             if not op.startswith("pair"):
                 continue
@@ -362,6 +492,7 @@ def run_c35(ctx, replay_path=None):
                 if seen[hit[0]] <= 2:
                     res.failures.append({"key": hit[0], "what": hit[1], "ops": [op], "observed": out})
     res.extra["failing_scenarios_by_key"] = seen
+    res.extra["sessions_with_several_pairings_on_one_connection"] = len(multi)
     res.samples = ["%s -> %s" % (o, r) for o, r in list(zip(sessions[-1], impl[-1]["out"]))[:4]]
     return res
 
@@ -390,7 +521,8 @@ PROPS = {
                   "BluetoeModel.SmSelect.authenticated_iff_authenticated_exchange_partial",
                   "BluetoeModel.SmSelect.no_key_iff_not_completed", "BluetoeModel.SmSelect.legacy_status_correct",
                   "BluetoeModel.SmSelect.lesc_status_correct_iff", "BluetoeModel.SmSelect.legacy_authenticated_sound",
-                  "BluetoeModel.SmSelect.lesc_only_status_correct", "BluetoeModel.SmSelect.lesc_only_nc_authenticated"],
+                  "BluetoeModel.SmSelect.lesc_only_status_correct", "BluetoeModel.SmSelect.lesc_only_nc_authenticated",
+                  "BluetoeModel.SmSelect.status_reflects_last_pairing", "BluetoeModel.SmSelect.hinv_step"],
         witnesses=["BluetoeModel.SmSelect.oob_flag_witness",
                    "BluetoeModel.SmSelect.authenticated_iff_authenticated_exchange_full_witness"],
         run=run_c35,
